@@ -446,11 +446,14 @@ type Config struct {
 	SolverBin  string
 	SolverTimeoutMs int
 	Race       bool
+	MapOrderFork bool // every iteration order of a map with 2..3 entries is a separate path (code outside harness files)
 	Deadline   time.Time
 	Trace      bool
 	StopAfterViolations int
 	ReplayDecisions []Decision // if set: run exactly this path
 	BudgetIsViolation bool     // termination properties: exceeding the step/depth budget is the violation
+	IsKnown           func(Violation) bool // recorded findings (do not count towards StopAfterNew)
+	StopAfterNew      int                  // stop exploring after this many violations that are not recorded findings
 }
 
 // Result of one exploration run.
@@ -481,6 +484,7 @@ type Result struct {
 	chains       map[string]string
 	ViolationCounts map[string]int64 // per kind|msg|tag (only the first 3 of each are kept in Violations)
 	TotalViolations int64
+	NewViolations   int64 // violations not matching a recorded finding
 }
 
 type queued struct {
@@ -613,6 +617,10 @@ func (ex *Explorer) worker(k int) {
 			ex.res.Budget[fmt.Sprintf("time budget reached with %d prefixes queued", len(ex.queue))]++
 			ex.stop = true
 		}
+		if !ex.stop && ex.cfg.StopAfterNew > 0 && ex.res.NewViolations >= int64(ex.cfg.StopAfterNew) && len(ex.queue) > 0 {
+			ex.res.Budget[fmt.Sprintf("stopped after %d violations that are not recorded findings (%d prefixes unexplored)", ex.res.NewViolations, len(ex.queue))]++
+			ex.stop = true
+		}
 		if ex.cfg.StopAfterViolations > 0 && ex.res.TotalViolations >= int64(ex.cfg.StopAfterViolations) {
 			ex.stop = true
 		}
@@ -692,6 +700,9 @@ func (ex *Explorer) merge(pr *pathResult) {
 		}
 		r.ViolationCounts[k]++
 		r.TotalViolations++
+		if ex.cfg.IsKnown == nil || !ex.cfg.IsKnown(v) {
+			r.NewViolations++
+		}
 		if r.ViolationCounts[k] <= 3 {
 			r.Violations = append(r.Violations, v)
 		}
